@@ -158,7 +158,7 @@ func runC08(env *Env, tier string) {
 		s.E.App.OnCall = func(c AppCall) {
 			// (not while a second frame is waiting behind the one being handled: the wake-up for the queued
 			// message and the waiting frame would be two ready sources for the session's select - R1)
-			if (c.Kind == "FromAdmin" || c.Kind == "FromApp") && !c08PairInFlight && c.Type != "A" && (c.Seq+len(c.Type)+len(c.ID))%k == 0 {
+			if (c.Kind == "FromAdmin" || c.Kind == "FromApp") && !c08PairInFlight && (c.Seq+len(c.Type)+len(c.ID))%k == 0 {
 				cbN++
 				env.Stat("probe_send_from_callback")
 				s.E.Send("D", AppBody(fmt.Sprintf("cb%d", cbN)))
